@@ -93,6 +93,9 @@ def do_replay(path):
 
 
 def main():
+    if os.environ.get("SYMX_DEBUG_HANG"):
+        import faulthandler
+        faulthandler.dump_traceback_later(int(os.environ["SYMX_DEBUG_HANG"]), repeat=True, file=open("/tmp/symx_master.tb", "w"))
     ap = argparse.ArgumentParser()
     ap.add_argument("prop", nargs="?")
     ap.add_argument("--tier", default=os.environ.get("VERIF_TIER", "quick"))
